@@ -32,11 +32,12 @@ TRACK = ["skfem.generic_utils:hash_args", "skfem.mapping.mapping_isoparametric:M
          "skfem.element.element_quad.element_quadp:ElementQuadP.lbasis", "skfem.utils:solver_iter_krylov",
          "skfem.utils:solver_direct_scipy", "skfem.utils:solver_eigen_scipy_sym", "skfem.mesh.mesh:Mesh.refined",
          "skfem.mesh.mesh:Mesh._mapping"]
-REQUIRED_MONITORS = ["pooled-equals-fresh", "operands-unchanged"]
+REQUIRED_MONITORS = ["pooled-equals-fresh", "operands-unchanged", "retained-object-unchanged-by-later-use"]
 REQUIRED_REACH = ["warm:element-on-second-mesh", "warm:global-element-on-second-mesh", "warm:global-element-on-transformed-copy", "warm:lbasis-same-count-other-points",
                   "warm:jacobian-cache-same-bytes-other-shape", "warm:jacobian-cache-other-dtype", "warm:kd-tree",
                   "warm:solver-closure-other-size", "warm:solver-closure-per-call-kwargs", "warm:affine-lazy",
-                  "warm:basis-reused", "readonly-pass"]
+                  "warm:basis-reused", "readonly-pass", "retained-basis-reread", "retained:lbasis-other-points",
+                  "retained:refinterp", "retained:second-basis-same-length-rule", "composite-basis-components-reused"]
 
 
 # ------------------------------------------------------------------ helpers
@@ -657,4 +658,187 @@ def program(ctx, k):
                 "first_ops": [t[0] + ":" + str(t[1]) for t in trace[:5]]}, per_family=2)
 
 
-FAMILIES = [Family("programs", program, 160, 3200, budget={"quick": 80, "thorough": 1500})]
+# ------------------------------------------------------------------ retained objects
+def read_basis(b):
+    """Everything a consumer reads from a basis, copied."""
+    import skfem
+    from .c04 import generic_mass
+    out = []
+    for bf in b.basis:
+        for f in (bf if isinstance(bf, tuple) else (bf,)):
+            out.append(np.array(f))
+            for nm in ("grad", "div", "curl", "hess"):
+                a = getattr(f, nm, None)
+                if a is not None:
+                    out.append(np.array(a))
+    out += [np.array(b.dx), np.array(b.element_dofs), np.array(b.X), np.array(b.W)]
+    out.append(skfem.BilinearForm(generic_mass).assemble(b))
+    return out
+
+
+RETAINED = [("line", "ElementLinePp(3)"), ("line", "ElementLinePp(5)"), ("quad", "ElementQuadP(3)"), ("quad", "ElementQuadP(4)"),
+            ("line", "ElementLineP2"), ("tri", "ElementTriP2"), ("quad", "ElementQuad2"), ("tri", "ElementTriRT1"),
+            ("tet", "ElementTetP1"), ("ws-tri", "ElementTriMorley"), ("ws-quad", "ElementQuad2G"), ("ws-line", "ElementLineHermite")]
+
+
+def retained_basis(ctx, k):
+    """A basis is built, read, KEPT, and read again after its element / mesh objects were used for other things
+    (other point sets of the same size, refinterp, a second basis with another rule of equal length or on another
+    mesh, point evaluation): the second reading equals the first and equals a fresh build."""
+    import skfem
+    rng = ctx.rng()
+    kindkey, ename = RETAINED[k % len(RETAINED)]
+    specs = Specs(ctx, rng)
+    unit = kindkey.startswith("ws-")
+    kind = kindkey[3:] if unit else kindkey
+    mids = _mesh_ids(specs, kinds=[kind], unit=unit)
+    mid = str(rng.choice(mids))
+    pool = Env(specs, pooled=True)
+    fresh = Env(specs, pooled=False)
+    m, e = pool.mesh(mid), pool.elem(ename)
+    B = skfem.CellBasis(m, e)
+    R0 = read_basis(B)
+    before = snapshot([m])
+    nq = B.X.shape[1]
+    done = []
+    actions = ["lbasis-other-points", "refinterp", "second-basis-same-length-rule", "other-mesh", "probe", "subset",
+               "facet-basis", "lbasis-other-points"]
+    for act in [actions[i] for i in rng.permutation(len(actions))[: int(rng.integers(2, 6))]]:
+        try:
+            if act == "lbasis-other-points":
+                X = GEO.random_ref_points(rng, kind, nq)
+                for i in range(min(3, B.Nbfun)):
+                    e.lbasis(X, i)
+            elif act == "refinterp":
+                if kind in ("line", "tri", "quad"):
+                    B.refinterp(np.arange(B.N, dtype=float), nrefs=1)
+                else:
+                    continue
+            elif act == "second-basis-same-length-rule":
+                X = GEO.random_ref_points(rng, kind, nq)
+                W = np.full(nq, float(np.sum(B.W)) / nq)
+                b2 = skfem.CellBasis(m, e, quadrature=(X, W))
+                read_basis(b2)
+            elif act == "other-mesh":
+                others = [x for x in mids if x != mid]
+                if not others:
+                    continue
+                read_basis(skfem.CellBasis(pool.mesh(str(rng.choice(others))), e))
+            elif act == "probe":
+                if kind not in ("line", "tri", "quad"):
+                    continue
+                s_ = specs.meshes[mid]
+                c = int(rng.integers(0, m.t.shape[1]))
+                Xr = GEO.random_ref_points(rng, kind, 1)
+                x = GEO.map_points(kind, s_["p"], s_["t"], Xr, np.array([c]))[:, 0, :]
+                B.probes(x)
+            elif act == "subset":
+                B.with_elements(np.arange(max(1, m.t.shape[1] // 2)))
+            elif act == "facet-basis":
+                if kind == "line" or unit:
+                    continue
+                skfem.FacetBasis(m, e)
+        except Exception as ex:  # the interleaved operation itself is not the subject
+            ctx.drop(f"retained:action-raised:{act}:{type(ex).__name__}")
+            continue
+        done.append(act)
+    if not done:
+        raise Skip("no-action-applicable")
+    R1 = read_basis(B)
+    v01, d01 = compare(ctx, R1, R0)
+    base = ename.split("(")[0]
+    ctx.check("retained-object-unchanged-by-later-use", v01 == "bitwise", mech=f"retained-basis-changed:{base}",
+              elem=ename, mesh=mid, actions=done, difference=d01)
+    Rf = read_basis(skfem.CellBasis(fresh.mesh(mid), fresh.elem(ename)))
+    v, d = compare(ctx, R1, Rf)
+    if v == "close":
+        ctx.tolerated("pooled-equals-fresh")
+    ctx.check("pooled-equals-fresh", v != "different", mech=f"retained-basis-differs-from-fresh:{base}", elem=ename,
+              mesh=mid, actions=done, difference=d)
+    ch = changed(before, [m])
+    ctx.check("operands-unchanged", not ch, mech="operand-mutated:retained-basis", changed=[str(c) for c in ch[:6]],
+              actions=done)
+    ctx.reached("retained-basis-reread")
+    for a in done:
+        ctx.reached("retained:" + a)
+    ctx.nontrivial("retained", base, tuple(sorted(set(done))))
+    ctx.sample({"elem": ename, "mesh": mid, "actions": done}, per_family=1)
+
+
+def composite_bases(ctx, k):
+    """CompositeBasis (b1 * b2, b1 @ b2) borrows its component bases: assembling over the combination leaves the
+    components bit-for-bit unchanged, and the components (alone, recombined, in the other order) give what fresh
+    ones give."""
+    import skfem
+    rng = ctx.rng()
+    specs = Specs(ctx, rng)
+    kind = ("tri", "quad", "line", "tet")[k % 4]
+    pairs = {"tri": [("ElementTriP2", "ElementTriP1"), ("ElementTriP1", "ElementTriP0"), ("ElementTriP2", "ElementTriP2")],
+             "quad": [("ElementQuad2", "ElementQuad1"), ("ElementQuad1", "ElementQuad0")],
+             "line": [("ElementLineP2", "ElementLineP1"), ("ElementLineP1", "ElementLineP1")],
+             "tet": [("ElementTetP2", "ElementTetP1")]}[kind]
+    n1, n2 = pairs[(k // 4) % len(pairs)]
+    mid = str(rng.choice(_mesh_ids(specs, kinds=[kind], unit=False)))
+
+    def build(env):
+        m = env.mesh(mid)
+        b1 = skfem.CellBasis(m, EL.by_name(n1).make(), intorder=4)
+        b2 = b1.with_element(EL.by_name(n2).make())
+        return m, b1, b2
+
+    def coupled(u1, u2, v1, v2, w):
+        return u1 * v1 + 2.0 * u2 * v2 + 3.0 * u1 * v2 + (1.0 + w.x[0]) * u2 * v1
+
+    def use(b1, b2, how):
+        if how == "product":
+            return skfem.BilinearForm(coupled).assemble(b1 * b2)
+        if how == "reversed":
+            return skfem.BilinearForm(coupled).assemble(b2 * b1)
+        if how == "second-alone":
+            from .c04 import generic_mass
+            return [skfem.BilinearForm(generic_mass).assemble(b2), np.array(b2.element_dofs)]
+        if how == "first-alone":
+            from .c04 import generic_mass
+            return [skfem.BilinearForm(generic_mass).assemble(b1), np.array(b1.element_dofs)]
+        if how == "equal-dofnum":
+            if b1.N != b2.N:
+                raise Skip("equal-dofnum-needs-equal-N")
+            return skfem.BilinearForm(coupled).assemble(b1 @ b2)
+        raise ValueError(how)
+
+    m, b1, b2 = build(Env(specs, pooled=True))
+    hows = ["product", "reversed", "second-alone", "first-alone", "product"] + (["equal-dofnum"] if n1 == n2 else [])
+    seq = [hows[i] for i in rng.permutation(len(hows))]
+    if "product" not in seq[:2]:
+        seq.insert(0, "product")
+    for step, how in enumerate(seq):
+        before = snapshot([m, {"b1.element_dofs": np.asarray(b1.element_dofs), "b2.element_dofs": np.asarray(b2.element_dofs),
+                               "b1.dx": b1.dx, "b2.dx": b2.dx}])
+        keep = [m, {"b1.element_dofs": np.asarray(b1.element_dofs), "b2.element_dofs": np.asarray(b2.element_dofs),
+                    "b1.dx": b1.dx, "b2.dx": b2.dx}]
+        try:
+            _, f1, f2 = build(Env(specs, pooled=False))
+            ref = use(f1, f2, how)
+        except Skip:
+            continue
+        try:
+            got = use(b1, b2, how)
+        except Exception as ex:
+            ctx.check("pooled-equals-fresh", False, mech="composite-basis:component-unusable-after-history", how=how,
+                      sequence=seq[:step + 1], error=repr(ex)[:200], elems=[n1, n2])
+            continue
+        v, d = compare(ctx, got, ref)
+        if v == "close":
+            ctx.tolerated("pooled-equals-fresh")
+        ctx.check("pooled-equals-fresh", v != "different", mech="composite-basis:result-depends-on-history", how=how,
+                  sequence=seq[:step + 1], difference=d, elems=[n1, n2])
+        ch = changed(before, keep)
+        ctx.check("operands-unchanged", not ch, mech="operand-mutated:composite-basis-components", how=how,
+                  changed=[str(c) for c in ch[:6]], elems=[n1, n2])
+    ctx.reached("composite-basis-components-reused")
+    ctx.nontrivial("composite-basis", kind, n1, n2)
+
+
+FAMILIES = [Family("programs", program, 160, 3200, budget={"quick": 80, "thorough": 1500}),
+            Family("retained-basis", retained_basis, 48, 960, budget={"quick": 40, "thorough": 600}),
+            Family("composite-bases", composite_bases, 16, 320, budget={"quick": 20, "thorough": 300})]
